@@ -124,6 +124,31 @@ def gen_range_slices(ctx, rnd, out):
                         out.append({"op": "rslice", "ty": "range", "s": elems, "lo": lo, "hi": hi, "st": st, "w0": w0, "w1": w1, "src": src})
 
 
+def gen_sorted_ties(ctx, rnd, out):
+    """sorted (both directions), min and max through a key function over all key sequences with ties"""
+    maxn = 4 if ctx.quick else 6
+    for n in range(0, maxn + 1):
+        for ks in itertools.product((0, 1, 2), repeat=n):
+            if n >= 5 and rnd.random() < 0.6:
+                continue
+            xs = "[%s]" % ", ".join("(%d, %d)" % (k, j) for j, k in enumerate(ks))
+            for rev in (False, True):
+                key = "lambda p: p[0]"
+                if n == 0:
+                    src = "[sorted(%s, key=%s, reverse=%s)]" % (xs, key, rev)
+                else:
+                    src = "[sorted(%s, key=%s, reverse=%s), min(%s, key=%s), max(%s, key=%s)]" % (xs, key, rev, xs, key, xs, key)
+                out.append({"op": "sorted_kr", "ks": list(ks), "rev": rev, "src": src})
+    # the same through longer inputs (beyond the insertion-sort threshold of Go's sort package)
+    for _ in range(20 if ctx.quick else 200):
+        n = rnd.randint(13, 40)
+        ks = [rnd.randrange(3) for _ in range(n)]
+        xs = "[%s]" % ", ".join("(%d, %d)" % (k, j) for j, k in enumerate(ks))
+        for rev in (False, True):
+            src = "[sorted(%s, key=lambda p: p[0], reverse=%s), min(%s, key=lambda p: p[0]), max(%s, key=lambda p: p[0])]" % (xs, rev, xs, xs)
+            out.append({"op": "sorted_kr", "ks": ks, "rev": rev, "src": src})
+
+
 def all_strings(alpha, maxlen):
     for n in range(maxlen + 1):
         for t in itertools.product(alpha, repeat=n):
@@ -428,7 +453,7 @@ def gen_alias(ctx, rnd, out):
 def generate(ctx):
     rnd = random.Random(ctx.seed)
     out = []
-    for g in (gen_slices, gen_range_slices, gen_search, gen_split, gen_case, gen_lists, gen_random, gen_alias, gen_format):
+    for g in (gen_slices, gen_range_slices, gen_sorted_ties, gen_search, gen_split, gen_case, gen_lists, gen_random, gen_alias, gen_format):
         g(ctx, rnd, out)
     for i, c in enumerate(out):
         c["id"] = i + 1
